@@ -218,6 +218,32 @@ def gateway(ctx) -> None:
     ctx.check(len(un) == 1 and any('415' in core.src(x) for x in un[0].body), 'C19.gateway', ep, 'the unsupported-encoding error reaches the client as 415', ep.node, key='endpoint:415')
 
 
+MEMOKEY_OK = {
+    f'{CODEC}:Pandas.Schema.from_frame': 'keyed by the hash of the ordered (column name, dtype) pairs - plain strings and dtypes, order-sensitive (rule above); no DSL object whose hash is order-insensitive is involved',
+}
+
+
+def codec_memos(ctx) -> None:
+    """No long-lived memo of the codecs is keyed by ``hash(x)``/``id(x)`` of a DSL object: the schema hash is an order-insensitive
+    xor of its fields, so two permuted schemas collide and the second one is encoded under the first one's column order."""
+    from . import C08
+
+    prog = ctx.prog
+    n = 0
+    for fn in prog.functions([m for m in prog.modules if m.startswith('forml.io.layout')]):
+        n += 1
+        sites = C08.memo_keys(fn.node)
+        if not sites:
+            continue
+        if fn.ref in MEMOKEY_OK:
+            ctx.ok('R-MEMOKEY', fn, f'hash-keyed memo accepted: {MEMOKEY_OK[fn.ref]}', sites[0][0])
+            continue
+        ctx.fail('R-MEMOKEY', fn, f'a long-lived mapping is keyed by {sites[0][1]}(...) of an object: `{core.src(sites[0][0])[:70]}` (permuted schemas have equal hashes)', core.enclosing_stmt(sites[0][0]))
+    ctx.floor('R-MEMOKEY.functions', n, 40)
+    col = prog.func(f'{CODEC}:Pandas.Encoder._columns')
+    ctx.check(any(d.split('.')[-1] in ('lru_cache', 'cache') for d in core.decorator_names(col.node)) or not any(isinstance(x, ast.Subscript) and isinstance(x.ctx, ast.Store) for x in core.walk_local(col.node)), 'R-MEMOKEY', col, 'the column order of an outcome is memoised by the schema object itself (structural equality) or not at all', col.node, key='_columns:memo')
+
+
 def schema_cache(ctx) -> None:
     """Decoding infers the table schema from the frame and memoises it by the frame layout: the memo key must distinguish what
     the schema depends on - the (name, dtype) pairs *in column order* (a permuted frame has a different schema; an unordered key
@@ -236,6 +262,7 @@ def schema_cache(ctx) -> None:
 
 def run(ctx) -> None:
     gateway(ctx)
+    codec_memos(ctx)
     schema_cache(ctx)
     lookups(ctx)
     parse_rule(ctx)
